@@ -30,6 +30,7 @@ type Program struct {
 
 	// index of function declarations: types.Func -> decl + package
 	declOf map[*types.Func]*FuncDecl
+	bySym  map[string]*FuncDecl
 	mrg    *MRG
 }
 
@@ -216,4 +217,15 @@ func (p *Program) AllFuncDecls() []*FuncDecl {
 		return out[i].Decl.Pos() < out[j].Decl.Pos()
 	})
 	return out
+}
+
+// funcBySym finds the declaration of the module function whose FuncKey is sym (nil if none).
+func (p *Program) funcBySym(sym string) *FuncDecl {
+	if p.bySym == nil {
+		p.bySym = map[string]*FuncDecl{}
+		for fo, fd := range p.declOf {
+			p.bySym[FuncKey(fo)] = fd
+		}
+	}
+	return p.bySym[sym]
 }
